@@ -109,12 +109,17 @@ REG["C04"] = {
 
 REG["C11"] = {
     "units": ["escaping"],
-    "scope": "ASCII mode: escaped_expectation_ascii(line) is all printable ASCII and is either the line itself (its UTF-8 bytes are the line's content) or `t (escaped)` with "
+    "scope": "UNICODE mode: escaped_expectation_unicode(line) contains no C* (control/format/unassigned/private/surrogate) code point and is either the line itself or "
+             "`t (escaped)` with decode(t) == content (escaped_printable_unicode proved equal to enc_u; round-trip lemma per char). "
+             "ASCII mode: escaped_expectation_ascii(line) is all printable ASCII and is either the line itself (its UTF-8 bytes are the line's content) or `t (escaped)` with "
              "decode(t) == content (round-trip lemma over the verified encoder table byte_to_ascii == enc_a and the verified decoders unescape_tabs == unesc, "
              "resolve_escape_sequences_to_bytes == resolve); EscapedRule::matches compares the stored bytes with the line minus trailing LFs.",
     "assumptions": ESC_TRUST + [
         "String::from_utf8_lossy: identity on ASCII bytes; a control byte / DEL / byte >= 0x80 never decodes to printable ASCII only (axiom_lossy_*; bounded validation in thorough tier)",
         "a line has no LF except at its end (holds for the output of split_at_newline, proved under C02)",
+        "unicode_categories::is_other is uninterpreted; assumed: printable ASCII is never `other`, an `other` char has a UTF-8 byte outside 0x20..0x7e, 0x0a occurs only in U+000A, "
+        "from_utf8_lossy(valid utf8) is the decoding (axiom_* in escape_roundtrip.rs; exhaustive validation over all scalar values in the thorough tier)",
+        "String::from_utf8 is Ok exactly on valid UTF-8 (vstd valid_utf8) and then encodes back to the input",
     ],
     "not_decided": ["that the written text is *parsed back* as that kind (ExpectationMaker::parse is regex-based: a plain line ending in ` (glob)` etc. is C09's concern)"],
 }
